@@ -131,6 +131,34 @@ def match_stream(ctx, family):
         ctx.cov['samples'].append({'stream': 'match-model', 'case': names[k], 'impl': impl[k][:300]})
     for i in range(n):
         ctx._distinct.add('match' + names[i] + impl[i])
+    if ctx.pid in ('C02', 'C03'):
+        # property oracle on the results of the model-stream inputs as well: StartLine/EndLine are the lines of the first
+        # and last word of the reported token span (token lines as recorded from the code's tokenizer in the T line)
+        case_lines = []
+        for l in open(d + '/match.cases'):
+            if l.startswith('T IDS'):
+                f = l.split(' LINES ')[1].split(' PSEUDO')[0].strip()
+                case_lines.append([int(x) for x in f.split(',')] if f else [])
+        bad = 0
+        if len(case_lines) == n:
+            for i in range(n):
+                for part in impl[i].split(';'):
+                    f = part.strip().split(':')
+                    if len(f) >= 4 and f[1].isdigit() and not f[0].startswith('Copyright/'):
+                        try:
+                            sl, el = [int(x) for x in f[2].split('-')]
+                            st, et = [int(x) for x in f[3].split('-')]
+                            ok = 0 <= st <= et < len(case_lines[i]) and case_lines[i][st] == sl and case_lines[i][et] == el
+                        except ValueError:
+                            continue
+                        if not ok:
+                            bad += 1
+                            if bad <= 3:
+                                ctx.add_violation('oracle:lines-of-first-and-last-word', None,
+                                                  dict(stream='match-model-' + family, index=i, case=names[i],
+                                                       verdict='StartLine/EndLine are not the lines of the first/last word of the reported span: '
+                                                               + part.strip() + ' token lines ' + repr(case_lines[i][:60])))
+            ctx.cov['streams']['lines-of-first-and-last-word'] = dict(cases=n, nontrivial=nt, mismatches=bad)
     if ctx.pid == 'C03':
         # property oracle on the results of the model-stream inputs as well: non-increasing confidence
         import struct
